@@ -111,13 +111,110 @@ def ev_tokens(evs, F):
     return [f"{k}:{bits_of(v.to(fmts()[F][0]) if v.dtype != fmts()[F][0] else v, F)[0]}" for k, v in evs]
 
 
+class StreamBlock(torch.nn.Module):
+    """a non-quantized parent whose direct children are quantized modules, with functions of several kinds between them"""
+
+    def __init__(self, ops):
+        super().__init__()
+        self.fc0 = torch.nn.Linear(6, 6)
+        self.fc1 = torch.nn.Linear(6, 6)
+        self.fc2 = torch.nn.Linear(6, 6)
+        self.ln = torch.nn.LayerNorm(6)
+        self.ops = ops
+
+    def apply_op(self, name, h, other):
+        if name == "relu":
+            return torch.relu(h)
+        if name == "gelu":
+            return torch.nn.functional.gelu(h)
+        if name == "view":
+            return h.view(-1, 6).view(h.shape)
+        if name == "add":
+            return h + other
+        if name == "mul2":
+            return h * 2
+        if name == "softmax":
+            return torch.softmax(h, dim=-1)
+        if name == "transpose":
+            return h.transpose(0, 1).transpose(0, 1)
+        return h
+
+    def forward(self, x):
+        h0 = self.fc0(x)
+        h = self.apply_op(self.ops[0], h0, h0)
+        h1 = self.fc1(h)
+        h = self.apply_op(self.ops[1], h1, h0)
+        h = self.ln(h)
+        h = self.apply_op(self.ops[2], h, h1)
+        return self.fc2(h)
+
+
+def streamline_cases(ctx):
+    """the bookkeeping of `Calibration(streamline=True)`: a spy logs every intercepted call (the source modules of its
+    positional arguments, the class names in `types`, whether a QBytesTensor came back); the model (`stream12`) predicts
+    from that log which children lose their quantized activations"""
+    import optimum.quanto as q
+    from optimum.quanto import Calibration, QBytesTensor
+    rng = ctx.rng
+
+    class Spy(Calibration):
+        def __init__(self, *a, **k):
+            super().__init__(*a, **k)
+            self.calls = []
+
+        def __torch_function__(self, func, types, args=(), kwargs=None):
+            out = super().__torch_function__(func, types, args, kwargs)
+            srcs = [getattr(a_, "src_module", None) for a_ in args]
+            srcs = [m for m in srcs if m is not None]
+            if isinstance(out, torch.Tensor) and (srcs or any(issubclass(t, q.QTensor) for t in types)):
+                self.calls.append((srcs, isinstance(out, QBytesTensor), [t.__name__ for t in types]))
+            return out
+
+    lines, expect = [], []
+    opsl = ["relu", "gelu", "view", "add", "mul2", "softmax", "transpose", "none"]
+    n = 40 if not ctx.thorough else 400
+    for i in range(n):
+        dt = rng.choice([torch.float32, torch.float16, torch.bfloat16])
+        act = rng.choice(["qint8", "qfloat8_e4m3fn"])
+        ops = [rng.choice(opsl) for _ in range(3)]
+        torch.manual_seed(rng.getrandbits(30))
+        model = StreamBlock(ops).to(dt)
+        q.quantize(model, weights=q.qint8, activations=q.qtypes[act])
+        children = [c for _, c in model.named_children() if hasattr(c, "activation_qtype")]
+        ids = {id(c): k for k, c in enumerate(children)}
+        spy = Spy(streamline=True)
+        try:
+            with torch.no_grad(), spy:
+                model(torch.randn(3, 6).to(dt))
+        except Exception as e:  # noqa
+            ctx.spec_failures.append((f"C12:calibration-forward-raises:{exc_name(e)}", {"ops": ops, "act": act, "dtype": str(dt), "message": str(e)[:150]}))
+            continue
+        disabled = [k for k, c in enumerate(children) if c.activation_qtype is None]
+        calls = []
+        for srcs, qout, tys in spy.calls:
+            ks = [ids[id(m)] for m in srcs if id(m) in ids]
+            calls.append(("+".join(map(str, ks)) if ks else "-") + ":" + ("q" if qout else "p") + ":" + "+".join(tys))
+        lines.append("stream12 " + ",".join(str(k) for k in range(len(children))) + " " + " ".join(calls))
+        expect.append(",".join(map(str, disabled)) if disabled else "")
+        ctx.evaluations += 1
+        ctx.count(f"streamline:disabled={len(disabled)}of{len(children)}")
+        ctx.nontriv(("streamline", tuple(ops), act, str(dt)))
+    got = run_driver(lines)
+    ctx.corr_cases += len(lines)
+    for l, e, g in zip(lines, expect, got):
+        if e != g.strip() and len(ctx.corr_disagreements) < 20:
+            ctx.corr_disagreements.append({"case": l[:600], "impl": e, "model": g, "tag": "streamline: children that lose their quantized activations"})
+    if lines:
+        ctx.sample({"line": lines[0][:300], "impl": expect[0]})
+
+
 def run(ctx, directed=True):
     from optimum.quanto.nn import QModuleMixin
     lean_obligations(ctx)
     rng = ctx.rng
     ctx.extra["rule"] = ("seeded histories of 1-9 batches (magnitudes over 8 decades, some batches with absmax exactly qmax so that a scale equals 1), momentum in {0, 0.1, 0.5, 0.9, 0.99, random}, 3 activation qtypes, "
                          "Linear / Conv2d / LayerNorm alone or chained, one or two successive contexts, streamline on/off, dtype float32/float16/bfloat16; distinct = (model kind, dtype, qtype, momentum, streamline, history hash); "
-                         "non-trivial = more than one batch or momentum != 0.9")
+                         "non-trivial = more than one batch or momentum != 0.9; plus the streamline bookkeeping on parents with 4 quantized children and 8 kinds of functions between them")
     n = 150 if not ctx.thorough else 2000
     lines, meta = [], []
     cfgs = [None] * n
@@ -162,6 +259,7 @@ def run(ctx, directed=True):
                 sig = f"C12:{kind}-scale-sentinel-restart"
             ctx.spec_failures.append((sig, {"module": mt["module"], "which": mt["which"], "momentum": mt["momentum"], "kind": mt["kind"], "F": mt["F"], "act": mt["act"],
                                             "impl_bits": mt["impl"], "ema_bits": spec_final, "replay": l}))
+    streamline_cases(ctx)
     ctx.sample({"line": lines[0], "impl": meta[0]["impl"], "model+spec": got[0]})
     ctx.sample({"line": lines[-1], "impl": meta[-1]["impl"], "model+spec": got[-1]})
     # S4: the sentinel witness is replayed on the implementation
